@@ -49,6 +49,8 @@ func init() {
 			{ID: "C10.26", Desc: "no error returned by a call is overwritten or dropped without having been looked at", Run: func(c *Ctx) { ruleNoDeadErrorValues(c, "C10.26") }, MinSites: 1},
 			{ID: "C10.27", Desc: "a configured store timeout below the default is honoured (a blocked store operation fails open in time)", Run: func(c *Ctx) { ruleConfiguredTimeoutWins(c, "C10.27") }, MinSites: 1},
 			{ID: "C10.28", Desc: "the index reader hands out no partially decoded list", Run: func(c *Ctx) { ruleIndexReaderReturnsNilOnError(c, "C10.28") }, MinSites: 1},
+			{ID: "C10.29", Desc: "every revalidation context is built with the same fields (the background one carries the freshness record the failure path dereferences)", Run: func(c *Ctx) { ruleC08_4(c); renameRule(c, "C08.4", "C10.29") }, MinSites: 2},
+			{ID: "C10.30", Desc: "the field list of a qualified no-cache and the flag that says it is qualified come from one decoding (a nil list is never ranged over)", Run: func(c *Ctx) { ruleC02_4(c); renameRule(c, "C02.4", "C10.30") }, MinSites: 1},
 		},
 	})
 }
